@@ -309,10 +309,31 @@ class Desugarer:
                     "<%s as std::ops::FromResidual<std::option::Option<std::convert::Infallible>>>::from_residual" % (dty_ or ty_)
             return {"def": base, "written": w, "resolved": w if w != base else None, "resolved_args": None, "ikind": "Item", "local": False}
 
+        def ty_of(op):
+            if op.get("k") in ("copy", "move") and not op["place"]["p"]:
+                return str(raw["locals"][op["place"]["l"]]["ty"])
+            return "?"
+
+        def next_f(op):
+            """callee record of a synthetic Iterator::next on the iterator held by operand `op` (typed when known)"""
+            w = "std::iter::Iterator::next"
+            res = None
+            if op.get("k") in ("copy", "move") and not op["place"]["p"]:
+                ty = str(raw["locals"][op["place"]["l"]]["ty"])
+                while ty.startswith("&"):
+                    ty = ty[1:].lstrip()
+                    if ty.startswith("mut "):
+                        ty = ty[4:]
+                if ty and ty != "?":
+                    res = "<%s as std::iter::Iterator>::next" % ty
+            return {"def": w, "written": res or w, "resolved": res, "resolved_args": None, "ikind": "Item", "local": False}
+
         short = name.rsplit("::", 1)[-1]
         owner = name.rsplit("::", 1)[0]
         if self.closures_only and short in ("unwrap_or", "ok_or", "or", "ok", "err", "transpose", "then_some"):
             return False         # value-only combinators stay calls in the 'closures' view
+        if self.closures_only and name in ("std::iter::Iterator::any", "std::iter::Iterator::all"):
+            return False         # membership / universal tests stay calls there too (rules name them)
         if owner == OPT:
             adt = OPT
             if short == "map" and fnarg(1):
@@ -541,11 +562,10 @@ class Desugarer:
         if name in ("std::iter::Iterator::try_fold", "std::iter::Iterator::fold") and len(args) == 3 and fnarg(2):
             # acc = init; loop { match it.next() { None => break, Some(x) => acc = f(acc, x) [?] } }
             fn = fnarg(2)
-            it = B.local()
-            acc = B.local()
+            it = B.local(ty_of(args[0]))
+            acc = B.local(ty_of(args[1]))
             pre = [B.assign(it, B.use(args[0])), B.assign(acc, B.use(args[1]))]
-            nf = {"def": "std::iter::Iterator::next", "written": "std::iter::Iterator::next", "resolved": None,
-                  "resolved_args": None, "ikind": "Item", "local": False}
+            nf = next_f(args[0])
             item = B.local()
             sw_blk = B.block()
             header = B.block()
@@ -599,7 +619,7 @@ class Desugarer:
                     "std::iter::Iterator::any", "std::iter::Iterator::all") and fnarg(1):
             fn = fnarg(1)
             # the iterator: `&mut I` for try_for_each / any / all, `I` by value for for_each
-            it = B.local()
+            it = B.local(ty_of(args[0]))
             pre = [B.assign(it, B.use(args[0]))]
             if short == "for_each":
                 itref = B.local()
@@ -609,8 +629,7 @@ class Desugarer:
                 nxt_arg = lambda: B.cp(it)
             item = B.local()
             header = B.block()
-            nf = {"def": "std::iter::Iterator::next", "written": "std::iter::Iterator::next", "resolved": None,
-                  "resolved_args": None, "ikind": "Item", "local": False}
+            nf = next_f(args[0])
             sw_blk = B.block()
             hs = []
             if short == "for_each":
